@@ -217,7 +217,8 @@ def policy_clauses(prog, arg):
         d = {"policy": policy, "hours": {p: (mval(m, U.hinfo[p][1]) if mval(m, U.hinfo[p][0]) else None) for p in SIX},
              "recomputed": {p: (mval(m, U.rinfo[p][1]) if mval(m, U.rinfo[p][0]) else None) for p in SIX},
              "angF": mval(m, U.angF), "angI": mval(m, U.angI), "intF": mval(m, U.intF), "intI": mval(m, U.intI),
-             "near_lat": mval(m, U.near_lat), "ordinal": mval(m, U.jd_ord)}
+             "near_lat": mval(m, U.near_lat), "ordinal": mval(m, U.jd_ord),
+             "mins": {p: mval(m, v) for p, v in U.mins.items()}}
         return d
     outs = run_adj(U, params)
     conv = spec_conventional(U, U.intF, U.intI)
